@@ -11,7 +11,8 @@ Proof.
   induction t as [|[l|v] t IH]; intros [|s p] b H; simpl in H; try discriminate.
   - inversion H. reflexivity.
   - destruct (String.eqb l s); [|discriminate]. simpl. apply (IH p b H).
-  - destruct (match_template t p) as [b'|] eqn:E; [|discriminate]. inversion H; subst.
+  - destruct (String.eqb s "") eqn:Es; [discriminate|].
+    destruct (match_template t p) as [b'|] eqn:E; [|discriminate]. inversion H; subst.
     simpl. f_equal. apply (IH p b' E).
 Qed.
 
@@ -21,7 +22,8 @@ Proof.
   induction t as [|[l|v] t IH]; intros [|s p] b H; simpl in H; try discriminate.
   - reflexivity.
   - destruct (String.eqb l s); [|discriminate]. simpl. f_equal. apply (IH p b H).
-  - destruct (match_template t p) as [b'|] eqn:E; [|discriminate]. simpl. f_equal. apply (IH p b' E).
+  - destruct (String.eqb s "") eqn:Es; [discriminate|].
+    destruct (match_template t p) as [b'|] eqn:E; [|discriminate]. simpl. f_equal. apply (IH p b' E).
 Qed.
 
 (** The value bound to the i-th variable is the path segment at the position of that variable
@@ -34,13 +36,29 @@ Fixpoint instantiate (t : template) (vals : list string) : list string :=
   end.
 
 Theorem match_instantiate : forall t vals,
-  List.length vals = List.length (vars t) ->
+  List.length vals = List.length (vars t) -> Forall (fun x => x <> "") vals ->
   match_template t (instantiate t vals) = Some (combine (vars t) vals).
 Proof.
-  induction t as [|[l|v] t IH]; intros vals H; simpl in *.
+  induction t as [|[l|v] t IH]; intros vals H Hne; simpl in *.
   - destruct vals; [reflexivity|discriminate].
-  - rewrite String.eqb_refl. apply IH. exact H.
-  - destruct vals as [|x vals]; [discriminate|]. simpl. rewrite IH by (simpl in H; lia). reflexivity.
+  - rewrite String.eqb_refl. apply IH; assumption.
+  - destruct vals as [|x vals]; [discriminate|]. simpl.
+    inversion Hne as [|? ? Hx Hrest]; subst.
+    destruct (String.eqb x "") eqn:Ex; [apply String.eqb_eq in Ex; contradiction|].
+    rewrite IH by (try (simpl in H; lia); assumption). reflexivity.
+Qed.
+
+(** an empty segment where the template has a variable matches nothing *)
+Theorem empty_variable_segment_matches_nothing : forall (pre : template) v (post : template) (ppre ppost : list string),
+  List.length ppre = List.length pre ->
+  match_template (pre ++ SVar v :: post)%list (ppre ++ "" :: ppost)%list = None.
+Proof.
+  induction pre as [|[l|w] pre IH]; intros v post ppre ppost Hlen.
+  - destruct ppre; [reflexivity|discriminate].
+  - destruct ppre as [|s ppre]; [discriminate|]. simpl. destruct (String.eqb l s); [|reflexivity].
+    apply IH. simpl in Hlen. lia.
+  - destruct ppre as [|s ppre]; [discriminate|]. simpl. destruct (String.eqb s ""); [reflexivity|].
+    rewrite IH by (simpl in Hlen; lia). reflexivity.
 Qed.
 
 Theorem match_complete : forall t path b,
@@ -50,7 +68,8 @@ Proof.
   - reflexivity.
   - destruct (String.eqb l s) eqn:E; [|discriminate]. apply String.eqb_eq in E. subst.
     simpl. f_equal. apply IH. exact H.
-  - destruct (match_template t p) as [b'|] eqn:E; [|discriminate]. inversion H; subst.
+  - destruct (String.eqb s "") eqn:Es; [discriminate|].
+    destruct (match_template t p) as [b'|] eqn:E; [|discriminate]. inversion H; subst.
     simpl. f_equal. apply IH. exact E.
 Qed.
 
@@ -72,11 +91,11 @@ Proof.
 Qed.
 
 Theorem args_follow_names t vals i v x :
-  NoDup (vars t) -> List.length vals = List.length (vars t) ->
+  NoDup (vars t) -> List.length vals = List.length (vars t) -> Forall (fun y => y <> "") vals ->
   nth_error (vars t) i = Some v -> nth_error vals i = Some x ->
   exists b, match_template t (instantiate t vals) = Some b /\ lookup b v = Some x /\ map snd b = vals.
 Proof.
-  intros Hnd Hlen Hv Hx. exists (combine (vars t) vals). split; [apply match_instantiate; exact Hlen|].
+  intros Hnd Hlen Hne Hv Hx. exists (combine (vars t) vals). split; [apply match_instantiate; assumption|].
   split; [apply (lookup_combine (vars t) vals i v x); auto|].
   clear -Hlen. revert vals Hlen. induction (vars t) as [|n ns IH]; intros [|y vals] H; simpl in *; try discriminate; try reflexivity.
   f_equal. apply IH. lia.
@@ -213,17 +232,17 @@ Qed.
 (** If exactly one route matches, it is the one dispatched to, with the path values as arguments
     in path order. *)
 Theorem dispatch_exact rs m r vals :
-  In r rs -> r_method r = m -> List.length vals = List.length (vars (r_tmpl r)) ->
+  In r rs -> r_method r = m -> List.length vals = List.length (vars (r_tmpl r)) -> Forall (fun y => y <> "") vals ->
   (forall r', In r' rs -> r' <> r -> matches m (instantiate (r_tmpl r) vals) r' = false) ->
   (forall r', In r' rs -> r' = r \/ r' <> r) ->
   NoDup rs ->
   dispatch [] rs m (instantiate (r_tmpl r) vals) = Some (r_op r, vals).
 Proof.
-  intros Hin Hm Hlen Hothers Hdec Hnd. unfold dispatch. simpl.
+  intros Hin Hm Hlen Hnonempty Hothers Hdec Hnd. unfold dispatch. simpl.
   assert (Hf : filter (matches m (instantiate (r_tmpl r) vals)) rs = [r]).
   { clear Hdec. induction rs as [|x rs IH]; [contradiction|].
     inversion Hnd as [|? ? Hnotin Hnd']; subst. simpl. destruct Hin as [->|Hin].
-    - unfold matches at 1. rewrite String.eqb_refl, match_instantiate by exact Hlen. simpl.
+    - unfold matches at 1. rewrite String.eqb_refl, match_instantiate by assumption. simpl.
       f_equal. assert (Hnone : forall l, (forall y, In y l -> In y rs) -> filter (matches (r_method r) (instantiate (r_tmpl r) vals)) l = []).
       { induction l as [|y l IHl]; intros Hl; simpl; [reflexivity|].
         rewrite Hothers; [apply IHl; intros z Hz; apply Hl; right; exact Hz| right; apply Hl; left; reflexivity|].
@@ -231,7 +250,7 @@ Proof.
       apply Hnone. auto.
     - rewrite Hothers; [|left; reflexivity|intros ->; contradiction].
       apply IH; auto. intros r' Hr' Hne. apply Hothers; [right; exact Hr'|exact Hne]. }
-  rewrite Hf. simpl. rewrite match_instantiate by exact Hlen. f_equal. f_equal.
+  rewrite Hf. simpl. rewrite match_instantiate by assumption. f_equal. f_equal.
   clear -Hlen. revert vals Hlen. induction (vars (r_tmpl r)) as [|n ns IH]; intros [|y vals] H; simpl in *; try discriminate; try reflexivity.
   f_equal. apply IH. lia.
 Qed.
